@@ -13,7 +13,8 @@ func main() {
 			"single and multiple assignment incl. swaps, all loop kinds, break, goto shapes) printed one statement per line; each is run on the real interpreter " +
 			"and its emit trace/results/error compared in Coq with the reference evaluator; non-trivial = at least 5 emitted rows or an error outcome; distinct by Gallina term; " +
 			"fragment mode: straight-line chunks inside the transcribed fragment of compile.go (coq/CC), each counted non-trivial, whose dumped prototype must equal the transcription's (frag_tie)",
-		Modes:     []luaprop.Mode{{Name: "core", Features: luagen.CoreFeatures(), Weight: 5}, {Name: "core-bigk", Features: bigk(luagen.CoreFeatures()), Weight: 1}},
+		Modes:     []luaprop.Mode{{Name: "core", Features: luagen.CoreFeatures(), Weight: 5}, {Name: "core-bigk", Features: bigk(luagen.CoreFeatures()), Weight: 1},
+			{Name: "fragment", Gen: luaprop.FragmentProgram, Weight: 3}},
 		NQuick:    400,
 		NThorough: 2500,
 		Corpus:    corpus,
